@@ -81,6 +81,9 @@ enum FontKind {
     Builtin(u8),
     /// glyph bytes = prng_bytes(seed, glyphs*h); glyphs = 512 if big else 256
     Custom { name: String, w: u8, h: u8, big: bool, seed: u32 },
+    /// the glyphs of BitFont::from_ansi_font_page(page) under ANY name (the name is independent of the glyph data);
+    /// edit = Some(seed): four glyph bytes chosen by the seed are redrawn (size and length unchanged)
+    BuiltinAs { page: u8, name: String, edit: Option<u32> },
 }
 
 #[derive(Clone, Debug, Hash, PartialEq, Eq, Serialize, Deserialize)]
@@ -95,6 +98,8 @@ enum PaletteM {
     Dos,
     /// the 16 DOS colours, other meta data
     DosRetitled { title: String, author: String, description: String },
+    /// Palette::dos_default() (colours and meta data untouched) with colour names: (selector into the 16 colours, name)
+    DosNamed { names: Vec<(u16, String)> },
     /// colours are 0xRRGGBB; names: (selector into colours, name)
     Custom { title: String, author: String, description: String, colors: Vec<u32>, names: Vec<(u16, String)> },
 }
@@ -359,12 +364,34 @@ fn make_font(k: &FontKind) -> Result<BitFont, String> {
             }
             Ok(f)
         }
+        FontKind::BuiltinAs { page, name, edit } => {
+            let mut f = BitFont::from_ansi_font_page(*page as usize).map_err(|e| format!("builtin font {page}: {e}"))?;
+            f.name = name.clone();
+            if let Some(seed) = edit {
+                let r = prng_bytes(*seed, 12);
+                for k in 0..4 {
+                    if let Some(g) = f.get_glyph_mut(char::from(r[k * 3])) {
+                        if !g.data.is_empty() {
+                            let i = r[k * 3 + 1] as usize % g.data.len();
+                            g.data[i] ^= r[k * 3 + 2] | 1;
+                        }
+                    }
+                }
+                f.calculate_checksum();
+            }
+            Ok(f)
+        }
     }
 }
 
 fn expected_font(k: &FontKind) -> Result<FontObs, String> {
     match k {
         FontKind::Builtin(_) => Ok(font_obs(&make_font(k)?)),
+        FontKind::BuiltinAs { name, .. } => {
+            let mut o = font_obs(&make_font(k)?);
+            o.name = name.clone();
+            Ok(o)
+        }
         FontKind::Custom { name, w, h, big, seed } => {
             let glyphs = if *big { 512 } else { 256 };
             let data = prng_bytes(*seed, glyphs * *h as usize);
@@ -479,6 +506,16 @@ fn expected(doc: &Doc) -> Result<Obs, String> {
     let palette = match &doc.palette {
         PaletteM::Dos => dos,
         PaletteM::DosRetitled { title, author, description } => PalObs { title: title.clone(), author: author.clone(), description: description.clone(), colors: dos.colors },
+        PaletteM::DosNamed { names } => {
+            let mut p = dos;
+            for (sel, name) in names {
+                if !name.is_empty() {
+                    let i = pick(*sel, p.colors.len());
+                    p.colors[i].1 = Some(name.clone());
+                }
+            }
+            p
+        }
         PaletteM::Custom { title, author, description, colors, names } => {
             let mut cols: Vec<((u8, u8, u8), Option<String>)> = colors.iter().map(|c| (((c >> 16) as u8, (c >> 8) as u8, *c as u8), None)).collect();
             for (sel, name) in names {
@@ -534,6 +571,21 @@ fn build(doc: &Doc) -> Result<Buffer, String> {
             buf.palette.title = title.clone();
             buf.palette.author = author.clone();
             buf.palette.description = description.clone();
+        }
+        PaletteM::DosNamed { names } => {
+            let d = Palette::dos_default();
+            let mut cols: Vec<Color> = d.color_iter().cloned().collect();
+            for (sel, name) in names {
+                if !name.is_empty() {
+                    let i = pick(*sel, cols.len());
+                    cols[i].name = Some(name.clone());
+                }
+            }
+            let mut p = Palette::from_slice(&cols);
+            p.title = d.title.clone();
+            p.author = d.author.clone();
+            p.description = d.description.clone();
+            buf.palette = p;
         }
         PaletteM::Custom { title, author, description, colors, names } => {
             let mut cols: Vec<Color> = colors.iter().map(|c| Color::new((c >> 16) as u8, (c >> 8) as u8, *c as u8)).collect();
@@ -1147,10 +1199,58 @@ fn layer(max_rows: usize, max_len: usize) -> BoxedStrategy<LayerM> {
         .boxed()
 }
 
+/// the name of the stock font (BitFont::is_default() looks at nothing else)
+fn stock_name() -> String {
+    BitFont::default().name
+}
+
+/// font names are independent of the glyph data: the stock default name, the name of some built-in font, or any text
+fn font_name() -> BoxedStrategy<String> {
+    prop_oneof![
+        3 => Just(stock_name()),
+        1 => any::<u16>().prop_map(|i| icy_engine::FONT_NAMES[pick(i, icy_engine::FONT_NAMES.len())].to_string()),
+        6 => uni_string(30),
+    ]
+    .boxed()
+}
+
+fn custom_font(name: BoxedStrategy<String>) -> BoxedStrategy<FontKind> {
+    (
+        name,
+        prop_oneof![5 => Just(8u8), 1 => 1u8..=8],
+        prop_oneof![3 => Just(16u8), 2 => Just(8u8), 3 => 1u8..=32, 1 => Just(1u8), 1 => Just(32u8)],
+        prop_oneof![3 => Just(false), 1 => Just(true)],
+        any::<u32>(),
+    )
+        .prop_map(|(name, w, h, big, seed)| FontKind::Custom { name, w, h, big, seed })
+        .boxed()
+}
+
+fn builtin_as(page: BoxedStrategy<u8>, name: BoxedStrategy<String>, edit: BoxedStrategy<Option<u32>>) -> BoxedStrategy<FontKind> {
+    (page, name, edit).prop_map(|(page, name, edit)| FontKind::BuiltinAs { page, name, edit }).boxed()
+}
+
+/// slot 0: half stock; 15% a NON-stock font that carries the stock name (redrawn cp437, another built-in, custom glyphs);
+/// 10% the stock glyphs under a foreign name; the rest any font
+fn font0() -> BoxedStrategy<FontKind> {
+    let some_seed = || any::<u32>().prop_map(Some).boxed();
+    prop_oneof![
+        10 => Just(FontKind::Builtin(0)),
+        1 => builtin_as(Just(0u8).boxed(), Just(stock_name()).boxed(), some_seed()),
+        1 => builtin_as((1u8..42).boxed(), Just(stock_name()).boxed(), prop_oneof![Just(None), any::<u32>().prop_map(Some)].boxed()),
+        1 => custom_font(Just(stock_name()).boxed()),
+        2 => builtin_as(Just(0u8).boxed(), uni_string(30), Just(None).boxed()),
+        5 => font_kind(),
+    ]
+    .boxed()
+}
+
 fn font_kind() -> BoxedStrategy<FontKind> {
     prop_oneof![
         3 => (0u8..42).prop_map(FontKind::Builtin),
-        5 => (
+        2 => builtin_as(prop_oneof![1 => Just(0u8), 2 => 0u8..42].boxed(), font_name(), prop_oneof![Just(None), any::<u32>().prop_map(Some)].boxed()),
+        2 => custom_font(font_name()),
+        3 => (
             uni_string(30),
             prop_oneof![5 => Just(8u8), 1 => 1u8..=8],
             prop_oneof![3 => Just(16u8), 2 => Just(8u8), 3 => 1u8..=32, 1 => Just(1u8), 1 => Just(32u8)],
@@ -1177,11 +1277,19 @@ fn fonts(max: usize) -> BoxedStrategy<Vec<FontM>> {
 }
 
 fn palette() -> BoxedStrategy<PaletteM> {
-    let n = prop_oneof![6 => 1usize..=24, 1 => Just(16usize), 1 => Just(1usize), 1 => 200usize..=300, 1 => Just(256usize), 1 => Just(257usize), 1 => Just(300usize)];
+    let n = prop_oneof![
+        6 => 1usize..=24,
+        1 => prop_oneof![Just(15usize), Just(16usize), Just(17usize)],
+        1 => Just(1usize),
+        1 => 200usize..=300,
+        1 => prop_oneof![Just(255usize), Just(256usize), Just(257usize)],
+        1 => Just(300usize)
+    ];
     let colors = (n, any::<u32>()).prop_map(|(n, seed)| prng_bytes(seed, n * 3).chunks(3).map(|c| (c[0] as u32) << 16 | (c[1] as u32) << 8 | c[2] as u32).collect::<Vec<u32>>());
     prop_oneof![
         5 => Just(PaletteM::Dos),
         1 => (tame(12), tame(12), tame(12)).prop_map(|(title, author, description)| PaletteM::DosRetitled { title, author, description }),
+        1 => vec((any::<u16>(), tame(10)), 1..=3).prop_map(|names| PaletteM::DosNamed { names }),
         5 => (tame(12), tame(12), tame(12), colors, vec((any::<u16>(), tame(10)), 0..=3))
             .prop_map(|(title, author, description, colors, names)| PaletteM::Custom { title, author, description, colors, names }),
     ]
@@ -1199,6 +1307,7 @@ fn buf_size() -> BoxedStrategy<(u16, u16)> {
         8 => (1u16..=12, 1u16..=8),
         1 => Just((80u16, 25u16)),
         1 => (0u16..=40, 0u16..=30),
+        1 => (1u16..=3, prop_oneof![Just(79u16), Just(80u16), Just(81u16), Just(120u16)]),
         1 => prop_oneof![Just((0u16, 0u16)), Just((0u16, 5u16)), Just((5u16, 0u16)), Just((1u16, 1u16))],
     ]
     .boxed()
@@ -1211,7 +1320,7 @@ fn documents() -> BoxedStrategy<Doc> {
         (0u8..5, 0u8..3, 0u8..4, 0u8..4),
         layers,
         palette(),
-        prop_oneof![3 => Just(FontKind::Builtin(0)), 2 => font_kind()],
+        font0(),
         prop_oneof![3 => Just(Vec::<FontM>::new()).boxed(), 4 => fonts(4)],
         prop_oneof![1 => Just(None), 1 => sauce(4).prop_map(Some)],
     )
@@ -1227,21 +1336,34 @@ fn boundary() -> BoxedStrategy<Doc> {
             (0u8..5, 0u8..3, 0u8..4, 0u8..4),
             vec(layer(4, 6), 1..=2),
             palette(),
-            prop_oneof![3 => Just(FontKind::Builtin(0)), 2 => font_kind()],
+            font0(),
             fonts(2),
             prop_oneof![1 => Just(None), 1 => sauce(2).prop_map(Some)],
         )
             .prop_map(|((w, h), modes, layers, palette, font0, fonts, sauce)| Doc { w, h, modes, layers, palette, font0, fonts, sauce, tag: String::new() })
     };
     // a dense maximum-size layer: every row from a small pool of rows, repeated
-    let dense = (vec(row(200), 1..=4), vec(row(12), 1..=3), uni_string(300), any::<bool>()).prop_map(|(wide, narrow, title, all_wide)| {
-        let mut rows = Vec::new();
-        for y in 0..120usize {
-            let r = if all_wide || y % 3 == 0 { &wide[y % wide.len()] } else { &narrow[y % narrow.len()] };
-            rows.push(r.clone());
-        }
-        LayerM { title, image: None, mode: 0, color: None, flags: 1, transparency: 0, x: -50, y: 50, w: 200, h: 120, fp: 0, rows, bottom: None, alloc_all: false }
-    });
+    let dense = (
+        vec(row(200), 1..=4),
+        vec(row(12), 1..=3),
+        uni_string(300),
+        any::<bool>(),
+        prop_oneof![3 => Just(1u8), 1 => Just(3u8), 1 => Just(0u8), 1 => Just(25u8), 2 => 0u8..32],
+        prop_oneof![2 => Just(0u8), 1 => Just(1u8), 1 => Just(2u8)],
+    )
+        .prop_map(|(wide, narrow, title, all_wide, flags, fill)| {
+            let mut rows = Vec::new();
+            for y in 0..120usize {
+                let r = if all_wide || y % 3 == 0 { &wide[y % wide.len()] } else { &narrow[y % narrow.len()] };
+                rows.push(r.clone());
+            }
+            if fill > 0 {
+                rows = filled_rows(200, 120, fill == 2);
+            }
+            LayerM { title, image: None, mode: 0, color: None, flags, transparency: 0, x: -50, y: 50, w: 200, h: 120, fp: 0, rows, bottom: None, alloc_all: false }
+        });
+    let long_text = (prop_oneof![Just(255usize), Just(256usize), Just(257usize), Just(65535usize), Just(65536usize), Just(65537usize)], prop_oneof![Just('a'), Just('é'), Just('\u{1F600}')])
+        .prop_map(|(n, c)| std::iter::repeat(c).take(n / c.len_utf8() + 1).collect::<String>());
     let many_fonts = (vec(font_kind(), 300..=300), any::<bool>()).prop_map(|(kinds, all)| {
         kinds.into_iter().enumerate().filter(|(i, _)| all || i % 7 != 3).map(|(i, kind)| FontM { slot: i as u16 + 1, kind }).collect::<Vec<FontM>>()
     });
@@ -1251,12 +1373,17 @@ fn boundary() -> BoxedStrategy<Doc> {
         2 => (base(), vec(layer(3, 6), 4..=4)).prop_map(|(mut d, mut ls)| {
             ls[0].w = 0; ls[1].h = 0; ls[2].w = 0; ls[2].h = 0; ls[3].w = 200; ls[3].h = 120;
             d.layers.extend(ls); d.layers.truncate(6); d.tag = "zero_and_max_layers".into(); d }),
-        2 => (base(), any::<u32>(), vec((any::<u16>(), tame(10)), 0..=6), prop_oneof![Just(300usize), Just(299usize), Just(256usize), Just(257usize)]).prop_map(|(mut d, seed, names, n)| {
+        2 => (base(), any::<u32>(), vec((any::<u16>(), tame(10)), 0..=6), prop_oneof![Just(300usize), Just(299usize), Just(255usize), Just(256usize), Just(257usize), Just(15usize), Just(16usize), Just(17usize)]).prop_map(|(mut d, seed, names, n)| {
             d.palette = PaletteM::Custom { title: "max".into(), author: String::new(), description: String::new(),
                 colors: prng_bytes(seed, n * 3).chunks(3).map(|c| (c[0] as u32) << 16 | (c[1] as u32) << 8 | c[2] as u32).collect(), names };
-            d.tag = "palette_256_300".into(); d }),
+            d.tag = "palette_16_256_300".into(); d }),
         2 => (base(), many_fonts).prop_map(|(mut d, f)| { d.fonts = f; d.tag = "font_slots_300".into(); d }),
         2 => (base(), sauce(255), vec(sauce_text(64), 255..=255)).prop_map(|(mut d, mut s, c)| { s.comments = c; d.sauce = Some(s); d.tag = "sauce_255_comments".into(); d }),
+        1 => (base(), long_text.clone(), long_text).prop_map(|(mut d, t, n)| {
+            d.layers[0].title = t;
+            d.fonts.push(FontM { slot: 299, kind: FontKind::Custom { name: n.chars().take(300).collect(), w: 8, h: 2, big: false, seed: 1 } });
+            d.fonts.sort_by_key(|f| f.slot); d.fonts.dedup_by_key(|f| f.slot);
+            d.tag = "long_title_font_name".into(); d }),
         1 => (base(), prop_oneof![Just((200u16, 120u16)), Just((200u16, 1u16)), Just((1u16, 120u16))]).prop_map(|(mut d, (w, h))| { d.w = w; d.h = h; d.tag = "buffer_200x120".into(); d }),
     ]
     .boxed()
@@ -1353,6 +1480,55 @@ fn cell_value_case(i: u64) -> Doc {
     d
 }
 
+/// rows of a completely filled w x h layer: `mixed` = long / short / invisible alternating, else every cell long-form (16 bytes each)
+fn filled_rows(w: usize, h: usize, mixed: bool) -> Vec<Row> {
+    (0..h)
+        .map(|y| Row {
+            cells: (0..w)
+                .map(|x| {
+                    let long = Cell::V(0x2500 + ((x * 7 + y) % 200) as u32, 256 + ((x + y) % 40) as u32, if x % 2 == 0 { TRANSPARENT } else { 7 }, ((x + y) % 1024) as u16, 0);
+                    match (mixed, (x + 2 * y) % 3) {
+                        (false, _) | (true, 0) => long,
+                        (true, 1) => Cell::V(0x30 + ((x + y) % 70) as u32, (x % 16) as u32, (y % 8) as u32, (x % 2) as u16, 0),
+                        _ => Cell::I,
+                    }
+                })
+                .collect(),
+            pad: 0,
+        })
+        .collect()
+}
+
+/// layers whose cell data straddle any plausible per-chunk payload limit (64 KiB .. 384 KB of records), completely filled,
+/// for each flag set that makes the loader's set_char refuse cells (locked, hidden, alpha + alpha locked) and for none;
+/// big layer first or second; plus image layers with 64 KiB .. 384 KB of pixel data. Independent of the writer's constant.
+const CS_SIZES: [(u16, u16); 10] = [(64, 64), (100, 60), (128, 64), (150, 82), (160, 100), (164, 100), (200, 82), (137, 120), (200, 100), (200, 120)];
+const CS_FLAGS: [u8; 4] = [1, 1 | 2, 0, 1 | 8 | 16];
+const CS_IMAGES: [(u16, u16); 3] = [(128, 128), (256, 257), (320, 300)];
+const CS_LAYER_CASES: u64 = 10 * 4 * 2 * 2;
+const CHUNK_CASES: u64 = CS_LAYER_CASES + 3 * 2;
+fn chunk_case(i: u64) -> Doc {
+    let bg = plain_layer("bg", 4, 2, vec![Row { cells: vec![S_CELL], pad: 0 }]);
+    let mut d = if i < CS_LAYER_CASES {
+        let (sz, fl, mixed, first) = (i % 10, (i / 10) % 4, (i / 40) % 2 == 1, (i / 80) % 2 == 1);
+        let (w, h) = CS_SIZES[sz as usize];
+        let mut l = plain_layer("big", w, h, filled_rows(w as usize, h as usize, mixed));
+        l.flags = CS_FLAGS[fl as usize];
+        l.x = -7;
+        l.y = 3;
+        small_doc(if first { vec![l, bg] } else { vec![bg, l] }, "")
+    } else {
+        let j = i - CS_LAYER_CASES;
+        let (w, h) = CS_IMAGES[(j % 3) as usize];
+        let mut l = plain_layer("img", 5, 5, Vec::new());
+        l.image = Some(ImageM { w, h, vscale: 1, hscale: 1, seed: j as u32 + 1 });
+        l.flags = if j / 3 == 1 { 1 | 2 } else { 1 };
+        small_doc(vec![bg, l], "")
+    };
+    d.fonts.clear();
+    d
+}
+
 fn oversize_case(i: u64) -> Doc {
     let big_rows = |w: usize, h: usize| (0..h).map(|y| Row { cells: (0..w).map(|x| if (x + y) % 17 == 0 { Cell::I } else { Cell::V(0x2500 + ((x * 7 + y) % 200) as u32, 300, 7, 0, 0) }).collect(), pad: 0 }).collect::<Vec<Row>>();
     let mut l = plain_layer("oversize", 700, 300, Vec::new());
@@ -1390,6 +1566,8 @@ fn main() {
          font pages of cells and layers are selectors into the existing slots; SAUCE absent or with title/author/group/0..=4 comments/flags. \
          boundary part: one forced extreme per case (dense 200x120 layer, six 200x120 layers, zero+max layers, 256/257/299/300 colours, ~300 font slots, 255 comments, buffer 200x120). \
          layer_flags (exhaustive): role x mode x 32 flag sets x colour tag. row_shapes (exhaustive): every row over {invisible,short,long}^w, w=0..=4, x 4 following rows x 2 storage forms. \
+         chunk_straddle (fixed table, both tiers): completely filled layers 64x64 .. 200x120 (64 KiB .. 384 KB of long-form records, and a long/short/invisible mix) x flags {none, locked, hidden, alpha+alpha-locked} x big layer first/second, and image layers with 64 KiB .. 384 KB of pixels. \
+         fonts: names are independent of glyph data (stock name 'Codepage 437 English' on redrawn/other/custom glyphs in slot 0 in 15% of documents and in other slots; stock glyphs under foreign names). \
          cell_values (exhaustive): product of boundary values char {0x41,255,256,0xD7FF,0xE000,0x10FFFF} x fg,bg {7,255,256,TRANSPARENT,0xFFFFFFFF} x font page {0,255,256,300} x attr {0,0x3FF,0x200}. \
          Non-trivial: >= 2 layers AND >= 1 long-form cell on a Normal layer AND >= 1 row terminator (a row of a Normal layer whose visible length is below the layer width); distinct by hash of the model.",
     );
@@ -1402,6 +1580,7 @@ fn main() {
     eng.enumerated(PartCfg::new("layer_flags", 0, 0).exhaustive(true), FLAG_CASES, flag_case, check);
     eng.enumerated(PartCfg::new("row_shapes", 0, 0).exhaustive(true), ROW_CASES, row_case, check);
     eng.enumerated(PartCfg::new("cell_values", 0, 0).exhaustive(true), CELL_VALUE_CASES, cell_value_case, check);
+    eng.enumerated(PartCfg::new("chunk_straddle", 0, 0).exhaustive(true), CHUNK_CASES, chunk_case, check);
     eng.generated(PartCfg::new("documents", 160_000, 2_400_000), documents, check);
     eng.generated(PartCfg::new("boundary", 240, 8_000).shrink_budget(300), boundary, check);
     let info = if eng.is_thorough() { 3 } else { 0 };
